@@ -331,4 +331,83 @@ theorem toSt_ofSt (s : St) : toSt (ofSt s) s = s := by
   simp only [toSt, ofSt, srqOf_map]
 theorem cb_ofSt (s : St) : CB (ofSt s) := ⟨rfl, rfl⟩
 
+
+/-! ### without the callback (`context->interface` or `->control` NULL): same registers, nothing logged -/
+
+theorem registers_ite {c : Prop} {_ : Decidable c} (x y : CCtx) :
+    (if c then x else y).registers = if c then x.registers else y.registers := by split <;> rfl
+theorem ctrlLog_ite {c : Prop} {_ : Decidable c} (x y : CCtx) :
+    (if c then x else y).ctrlLog = if c then x.ctrlLog else y.ctrlLog := by split <;> rfl
+
+/-- the registers the walk computes do not depend on the interface pointers, the log, the callback's answer or `oof` -/
+theorem loop_regs_indep : ∀ (fuel : Nat) (regs : List Reg) (hi hc : Bool) (log : List (Nat × Reg)) (ret : Int) (oof : Bool)
+    (hi' hc' : Bool) (log' : List (Nat × Reg)) (ret' : Int) (oof' : Bool) (name : Nat) (val : Reg),
+    (SCPI_RegSet_loop1 fuel ⟨regs, hi, hc, log, ret, oof⟩ name val).registers =
+      (SCPI_RegSet_loop1 fuel ⟨regs, hi', hc', log', ret', oof'⟩ name val).registers := by
+  intro fuel
+  induction fuel with
+  | zero => intros; rfl
+  | succ n ih =>
+    intro regs hi hc log ret oof hi' hc' log' ret' oof' name val
+    simp only [regsC, det_type, det_group, grp_eq]
+    generalize detailOf name = d
+    obtain ⟨cls, grp⟩ := d
+    generalize groupOf grp = g
+    by_cases h0 : regs.getD name 0 = val
+    · prune [h0]
+    by_cases hA : cls = 0 ∨ cls = 1
+    · prune [h0, hA]
+      (try simp only [registers_ite, fst_ite, loop_ite])
+      repeat' split
+      all_goals (first | rfl | apply ih)
+    · prune [h0, hA]
+      (try simp only [registers_ite, fst_ite, loop_ite])
+      repeat' split
+      all_goals (first | rfl | apply ih)
+
+/-- without the callback nothing is logged -/
+theorem loop_log_nocb : ∀ (fuel : Nat) (regs : List Reg) (hi hc : Bool) (log : List (Nat × Reg)) (ret : Int) (oof : Bool)
+    (name : Nat) (val : Reg), ¬(hi = true ∧ hc = true) →
+    (SCPI_RegSet_loop1 fuel ⟨regs, hi, hc, log, ret, oof⟩ name val).ctrlLog = log := by
+  intro fuel
+  induction fuel with
+  | zero => intros; rfl
+  | succ n ih =>
+    intro regs hi hc log ret oof name val hcb
+    simp only [regsC, det_type, det_group, grp_eq]
+    generalize detailOf name = d
+    obtain ⟨cls, grp⟩ := d
+    generalize groupOf grp = g
+    by_cases h0 : regs.getD name 0 = val
+    · prune [h0]
+    by_cases hA : cls = 0 ∨ cls = 1
+    · prune [h0, hA, hcb]
+      (try simp only [ctrlLog_ite, fst_ite, loop_ite])
+      repeat' split
+      all_goals (first | rfl | exact ih _ _ _ _ _ _ _ _ hcb)
+    · prune [h0, hA, hcb]
+      (try simp only [ctrlLog_ite, fst_ite, loop_ite])
+      repeat' split
+      all_goals (first | rfl | exact ih _ _ _ _ _ _ _ _ hcb)
+
+/-- SCPI_RegSet without an installed callback: the registers are those of the model, no control call is made -/
+theorem regSet_nocb (c : CCtx) (b : St) (name : Nat) (val : Reg) (h : ¬ CB c) (hlen : c.registers.length = regCount) :
+    (SCPI_RegSet c name val).registers = (regSet (toSt c b) name val).regs ∧
+    (SCPI_RegSet c name val).ctrlLog = c.ctrlLog := by
+  obtain ⟨regs, hi, hc, log, ret, oof⟩ := c
+  have e := regSet_refines ⟨regs, true, true, log, ret, oof⟩ b name val ⟨rfl, rfl⟩ hlen
+  have e' := congrArg St.regs e
+  simp only [toSt] at e'
+  constructor
+  · refine Eq.trans ?_ (e'.trans ?_)
+    · rw [regSet_unfold, regSet_unfold]
+      split
+      · exact loop_regs_indep _ _ _ _ _ _ _ _ _ _ _ _ _ _
+      · rfl
+    · rfl
+  · rw [regSet_unfold]
+    split
+    · exact loop_log_nocb _ _ _ _ _ _ _ _ _ (by simpa [CB] using h)
+    · rfl
+
 end ScpiVerif.Lemmas.RegsC
